@@ -68,8 +68,10 @@ def add_constraints(fit, spec, names):
 def gen_single(tier, seed):
     for kind in ("xy", "xy_cov", "indexed", "hist", "unbinned"):
         for cons in CONS:
-            for hist in ([], ["fix0"], ["fix0", "fix0"], ["fix0", "rel0"], ["fix0", "fix1", "rel0"], ["rel0", "fix1"]):
+            for hist in ([], ["fix0"], ["fix0", "fix0"], ["fix0", "rel0"], ["fix0", "fix1", "rel0"], ["rel0", "fix1"], ["fix0", "fix1"], ["fix1", "fix0", "fix1"]):          # (incl. several parameters fixed at the same time)
                 for dofit in (False, True):
+                    if dofit and hist[-2:] in (["fix0", "fix1"], ["fix0", "fix1"][::-1] + ["fix1"]) :
+                        continue          # (nothing left to fit for the two-parameter models)
                     if dofit and (hist or cons == "both") and tier != "thorough":
                         continue
                     yield {"kind": kind, "constraints": cons, "history": hist, "do_fit": dofit}
